@@ -646,21 +646,11 @@ func ReconstructMessageWithSharedDBAndS3(sharedDB *sql.DB, userDB *sql.DB, messa
 		buf.WriteString("\r\n")
 
 		// Get content from blob (in shared database) or text_content (with S3 support)
-		if blobID, ok := part["blob_id"].(int64); ok {
-			content, err := db.GetBlob(sharedDB, blobID)
-			if err == nil && content != "" {
-				buf.WriteString(content)
-			} else if s3Storage != nil && s3Storage.IsEnabled() {
-				// Try to get from S3 storage
-				if s3BlobID, storageType, err := db.GetBlobS3BlobID(sharedDB, blobID); err == nil && storageType == "s3" && s3BlobID != "" {
-					if content, err := s3Storage.Retrieve(s3BlobID); err == nil {
-						buf.WriteString(content)
-					}
-				}
-			}
-		} else if textContent, ok := part["text_content"].(string); ok {
-			buf.WriteString(textContent)
+		content, err := ReadPartContent(sharedDB, part, s3Storage)
+		if err != nil {
+			return "", err
 		}
+		buf.WriteString(content)
 	} else {
 		// Multipart message handling using DFS traversal
 		// Build a tree structure from flat parts list using parent_part_id
@@ -714,7 +704,9 @@ func ReconstructMessageWithSharedDBAndS3(sharedDB *sql.DB, userDB *sql.DB, messa
 		// Use DFS to reconstruct the MIME structure
 		// If we have a single root part, handle it directly
 		if len(rootParts) == 1 {
-			reconstructPartDFS(&buf, sharedDB, rootParts[0], s3Storage, "")
+			if err := reconstructPartDFS(&buf, sharedDB, rootParts[0], s3Storage, ""); err != nil {
+				return "", err
+			}
 		} else if len(rootParts) > 1 {
 			// Multiple root parts - determine the best multipart type
 			// Check for common patterns:
@@ -738,7 +730,9 @@ func ReconstructMessageWithSharedDBAndS3(sharedDB *sql.DB, userDB *sql.DB, messa
 
 			for _, rootNode := range rootParts {
 				buf.WriteString(fmt.Sprintf("--%s\r\n", boundary))
-				reconstructPartDFS(&buf, sharedDB, rootNode, s3Storage, boundary)
+				if err := reconstructPartDFS(&buf, sharedDB, rootNode, s3Storage, boundary); err != nil {
+					return "", err
+				}
 			}
 
 			buf.WriteString(fmt.Sprintf("--%s--\r\n", boundary))
@@ -816,7 +810,7 @@ type PartNode struct {
 }
 
 // reconstructPartDFS recursively reconstructs a MIME part using depth-first search
-func reconstructPartDFS(buf *bytes.Buffer, sharedDB *sql.DB, node *PartNode, s3Storage *blobstorage.S3BlobStorage, parentBoundary string) {
+func reconstructPartDFS(buf *bytes.Buffer, sharedDB *sql.DB, node *PartNode, s3Storage *blobstorage.S3BlobStorage, parentBoundary string) error {
 	contentType := node.Part["content_type"].(string)
 	contentTypeLower := strings.ToLower(contentType)
 
@@ -862,7 +856,9 @@ func reconstructPartDFS(buf *bytes.Buffer, sharedDB *sql.DB, node *PartNode, s3S
 		// Recursively process all children with DFS
 		for _, child := range children {
 			fmt.Fprintf(buf, "--%s\r\n", boundary)
-			reconstructPartDFS(buf, sharedDB, child, s3Storage, boundary)
+			if err := reconstructPartDFS(buf, sharedDB, child, s3Storage, boundary); err != nil {
+				return err
+			}
 		}
 
 		// Write closing boundary
@@ -873,8 +869,11 @@ func reconstructPartDFS(buf *bytes.Buffer, sharedDB *sql.DB, node *PartNode, s3S
 			contentType, node.Part["blob_id"] != nil, len(getStringField(node.Part, "text_content")))
 
 		writePartHeaders(buf, node.Part)
-		writePartContentWithS3(buf, sharedDB, node.Part, s3Storage)
+		if err := writePartContentWithS3(buf, sharedDB, node.Part, s3Storage); err != nil {
+			return err
+		}
 	}
+	return nil
 }
 
 // getStringField safely gets a string field from a map, returning empty string if not found
@@ -930,26 +929,55 @@ func writePartHeaders(buf *bytes.Buffer, part map[string]interface{}) {
 	buf.WriteString("\r\n")
 }
 
-// writePartContentWithS3 writes the content of a message part with S3 support
-func writePartContentWithS3(buf *bytes.Buffer, sharedDB *sql.DB, part map[string]interface{}, s3Storage *blobstorage.S3BlobStorage) {
-	// Get content from blob (in shared database) or text_content
-	var content string
-	if blobID, ok := part["blob_id"].(int64); ok {
-		// First try to get from local storage (in shared database)
-		if c, err := db.GetBlob(sharedDB, blobID); err == nil && c != "" {
-			content = c
-		} else if s3Storage != nil && s3Storage.IsEnabled() {
-			// Try to get from S3 storage
-			if s3BlobID, storageType, err := db.GetBlobS3BlobID(sharedDB, blobID); err == nil && storageType == "s3" && s3BlobID != "" {
-				if c, err := s3Storage.Retrieve(s3BlobID); err == nil {
-					content = c
-				} else {
-					fmt.Printf("Failed to retrieve blob from S3: %v\n", err)
-				}
-			}
+// ReadPartContent returns the content of a message part: the text stored
+// with the part, or the blob it refers to, from the shared database or from
+// S3. A blob that cannot be read is an error, never an empty content: the
+// caller must not present the part as if it were empty.
+func ReadPartContent(sharedDB *sql.DB, part map[string]interface{}, s3Storage *blobstorage.S3BlobStorage) (string, error) {
+	blobID, ok := part["blob_id"].(int64)
+	if !ok {
+		if textContent, ok := part["text_content"].(string); ok {
+			return textContent, nil
 		}
-	} else if textContent, ok := part["text_content"].(string); ok {
-		content = textContent
+		return "", nil
+	}
+
+	// First try to get from local storage (in shared database)
+	content, err := db.GetBlob(sharedDB, blobID)
+	if err != nil {
+		return "", fmt.Errorf("failed to get blob %d: %w", blobID, err)
+	}
+	if content != "" {
+		return content, nil
+	}
+
+	// GetBlob returns an empty string for S3 blobs (and for an empty local blob)
+	s3BlobID, storageType, err := db.GetBlobS3BlobID(sharedDB, blobID)
+	if err != nil {
+		return "", fmt.Errorf("failed to get blob %d: %w", blobID, err)
+	}
+	if storageType != "s3" {
+		return "", nil
+	}
+	if s3BlobID == "" {
+		return "", fmt.Errorf("blob %d is stored in S3 but has no S3 blob ID", blobID)
+	}
+	if s3Storage == nil || !s3Storage.IsEnabled() {
+		return "", fmt.Errorf("blob %d is stored in S3 but S3 storage is not enabled", blobID)
+	}
+	content, err = s3Storage.Retrieve(s3BlobID)
+	if err != nil {
+		return "", fmt.Errorf("failed to retrieve blob %d from S3: %w", blobID, err)
+	}
+	return content, nil
+}
+
+// writePartContentWithS3 writes the content of a message part with S3 support
+func writePartContentWithS3(buf *bytes.Buffer, sharedDB *sql.DB, part map[string]interface{}, s3Storage *blobstorage.S3BlobStorage) error {
+	// Get content from blob (in shared database) or text_content
+	content, err := ReadPartContent(sharedDB, part, s3Storage)
+	if err != nil {
+		return err
 	}
 
 	// If base64 encoding, ensure proper 76 char wrapping per RFC 2045
@@ -988,6 +1016,7 @@ func writePartContentWithS3(buf *bytes.Buffer, sharedDB *sql.DB, part map[string
 	if !strings.HasSuffix(content, "\r\n") {
 		buf.WriteString("\r\n")
 	}
+	return nil
 }
 
 // extractRecipients extracts all recipient addresses from To, Cc, and Bcc headers
